@@ -108,7 +108,7 @@ func c02r2(r *R) {
 	fn := c.Func("pkg/fingerprint", "JA4Fingerprint")
 	r.need(fn != nil, "JA4Fingerprint not found")
 	exc := map[string]string{
-		"pkg:crypto/rand": "utls.(*GREASEEncryptedClientHelloExtension).init fills a GREASE-ECH payload with random bytes when such an extension is re-serialised; JA4 reads only the two-byte extension type of each extension's output, so the value does not depend on it (reviewed; a finer information-flow proof is out of reach)",
+		"pkg:crypto/rand":                      "utls.(*GREASEEncryptedClientHelloExtension).init fills a GREASE-ECH payload with random bytes when such an extension is re-serialised; JA4 reads only the two-byte extension type of each extension's output, so the value does not depend on it (reviewed; a finer information-flow proof is out of reach)",
 		"pkg:github.com/cloudflare/circl/hpke": "same GREASE-ECH path: HPKE suite constants/lengths for the dummy payload",
 		"pkg:github.com/cloudflare/circl/kem":  "same GREASE-ECH path",
 	}
